@@ -89,11 +89,44 @@ PROBES = [
 ]
 
 
+def borrowed(r):
+    """a document from the generator of another check (macro programs, conditionals, scopes, argument forms,
+    counters, lists/tables, index, ifthen): everything that scans arguments or switches interpreter-wide state"""
+    import importlib
+    which = r.choice(['c02', 'c03', 'c03', 'c04', 'c05', 'c08', 'c10', 'c18', 'c19', 'c11'])
+    sub = r.randrange(10 ** 6)
+    try:
+        if which == 'c04':
+            from ..gen.scopes import ScopeGen
+            pre, body = ScopeGen(r, maxdepth=r.choice([2, 3])).program()
+            return 'borrowed:c04', pre + body
+        if which == 'c19':
+            from . import c19
+            return 'borrowed:c19', c19.gen_case(r)['doc']
+        if which == 'c05':
+            from . import c05
+            c = c05.gen_literal(r)
+            reg = {'dimen': '\\parindent', 'glue': '\\parskip', 'int': '\\tolerance', 'integer': '\\tolerance', 'number': '\\tolerance'}.get(c['kind'], '\\parindent')
+            return 'borrowed:c05', '\\documentclass{article}\\begin{document}Wq1x %s=%s Wq2x \\the%s\\end{document}' % (reg, c['text'], reg)
+        mod = importlib.import_module('pvmon.props.' + which)
+        for c in mod.cases(sub, 'quick', r.randrange(50), 10 ** 9):
+            for k in ('src', 'program'):
+                if isinstance(c.get(k), str):
+                    return 'borrowed:' + which, c[k]
+            if which == 'c11' and c.get('kind') == 'verbatim':
+                return 'borrowed:c11', '\\documentclass{article}\\begin{document}\\begin{%s}%s\\end{%s} Wq1x\\end{document}' % (c['env'], c['body'], c['env'])
+    except Exception:
+        pass
+    return r.choice(HOSTILE)
+
+
 def gen_doc(r):
     k = r.random()
-    if k < 0.45:
+    if k < 0.3:
         name, src = r.choice(HOSTILE)
         return name, src
+    if k < 0.55:
+        return borrowed(r)
     if k < 0.8:
         d = docs.gen(r, depth=r.choice([1, 2]), maxsec=4, blocks=(1, 3), labels=True, refs=True, index=False)
         return 'generated:' + d['cls'], docs.latex(d)
@@ -111,7 +144,7 @@ def cases(seed, tier, shard, nshards):
             B = ('probe', r.choice(PROBES))
         else:
             B = gen_doc(r)
-            while B[0].startswith('open-') or B[0] in ('verbatim-open', 'catcodes', 'openout'):
+            while B[0].startswith(('open-', 'borrowed:')) or B[0] in ('verbatim-open', 'catcodes', 'openout'):
                 B = gen_doc(r)
         yield {'A': [list(a) for a in As], 'B': list(B), 'render': r.random() < 0.5, 'renderer': r.choice(['HTML5', 'XHTML'])}
 
